@@ -163,6 +163,8 @@ def main(tier: str) -> int:
     # failed evaluations reported as -inf while maximising: an improvement FROM a failed parent is infinite
     runs.append(("SHADE", dict(pop_size=8, iters=10, objective="fail_lo", seed=chk.seed * 100 + 91, keep_history=True)))
     runs.append(("SHAGA", dict(pop_size=8, iters=10, objective="fail_lo", str_len=12, seed=chk.seed * 100 + 92, keep_history=True)))
+    # failed evaluations reported as NaN: such a trial is never accepted, so the individual keeps its parameters
+    runs.append(("jDE", dict(pop_size=10, iters=10, objective="fail_nan", seed=chk.seed * 100 + 93, keep_history=True, t_F=0.7, t_CR=0.7)))
     # strings shorter than 5 bits: mutation rates up to 5/str_len > 1
     for j, sl in enumerate((2, 3, 4)):
         runs.append(("SHAGA", dict(pop_size=6, iters=12, objective="asym", str_len=sl, minimization=(j == 1), seed=chk.seed * 100 + 94 + j, keep_history=True)))
